@@ -142,6 +142,17 @@ CHECKS = {
                 "representations are outside the dichotomy and not generated",
         "technique": "exhaustive enumeration of the 16-bit sum domain + all corruption subsets with a differential oracle",
     },
+    "C10": {
+        "category": "exploration",
+        "text": "Exhaustive product of the declared configuration alphabet: 5 -p lists x 8 -m variants (absent, bare, pairs, "
+                "trailing commas, full map) on a capture with TLS and QUIC connections to 6 server ports at once; the exported "
+                "server port, the unchanged client port and the presence/absence of every flow are compared with the documented "
+                "port function.",
+        "design_ref": "DESIGN.md section 5, C10",
+        "note": "trusted: the documented function as read from README.md and the option help texts; QUIC on unselected ports is "
+                "exported by design (only the mapping rule is asserted there)",
+        "technique": "exhaustive product over a declared configuration alphabet against the documented function",
+    },
 }
 
 NOT_YET = "check not built yet in this round (planned: bounded exhaustive exploration, see DESIGN.md section 5)"
